@@ -4,7 +4,7 @@ import os
 import numpy as np
 import darr
 
-KEYS = ['a', 'k2', 'ü中']
+KEYS = ['a', 'k2', 'ü中', 'half\ud83d']
 
 
 def build(v):
